@@ -2,7 +2,7 @@
    correspondence check (vm_compute in the kernel, extracted OCaml) call only this. *)
 From Coq Require Import ZArith List Bool.
 Import ListNotations.
-From Eudoxia Require Import Model.Codec Model.RunLife Model.RunExec Model.RunTime Model.RunSim Model.RunCsv.
+From Eudoxia Require Import Model.Codec Model.RunLife Model.RunExec Model.RunTime Model.RunSim Model.RunCsv Model.RunTools.
 
 Definition run (kind : Z) (l : list Z) : list Z :=
   match kind with
@@ -13,6 +13,9 @@ Definition run (kind : Z) (l : list Z) : list Z :=
   | 5 => run_sim l
   | 14 => run_csv_read l
   | 24 => run_csv_write l
+  | 20 => run_snap l
+  | 21 => run_jitter l
+  | 22 => run_seed l
   | _ => bad_input
   end%Z.
 
